@@ -377,4 +377,69 @@ theorem step_effect (s : State) (op : Op) : Effect s op (step s op).1 := by
     · rw [h0]; exact .noChange _
     · rw [h1]; exact .applyWorker _ e k (Or.inr rfl) hk he
 
+/-! ### ghost history: "this pending item was created by such-and-such an earlier message" -/
+
+/-- `Since s0 ops isReq Q`: the history `ops` (started in `s0`) contains a message `x`, sent in a
+    state `b` with `isReq b x`, such that `Q b t` holds for the state `t` right after `x` and for
+    every later state of the history, up to and including the last one. -/
+def Since (s0 : State) (ops : List Op) (isReq : State → Op → Prop) (Q : State → State → Prop) :
+    Prop :=
+  ∃ pre x post, ops = pre ++ x :: post ∧ isReq (run s0 pre) x ∧
+    ∀ post1, post1 <+: post → Q (run s0 pre) (run s0 (pre ++ x :: post1))
+
+/-- If a state predicate `P` can only be established by a request message (which then also
+    establishes `Q`), and while `P` persists `Q` persists, then whenever `P` holds at the end of a
+    history that did not start in `P`, the request is in the history and `Q` held ever since. -/
+theorem since_of_steps {s0 : State} {P : State → Prop} {isReq : State → Op → Prop}
+    {Q : State → State → Prop}
+    (hstep : ∀ s op, P (step s op).1 →
+      (P s ∧ ∀ b, Q b s → Q b (step s op).1) ∨ (isReq s op ∧ Q s (step s op).1))
+    (h0 : ¬ P s0) : ∀ ops, P (run s0 ops) → Since s0 ops isReq Q := by
+  intro ops
+  induction ops using list_snoc_induction with
+  | hnil => intro h; exact absurd h h0
+  | hsnoc ops op ih =>
+    intro h
+    rw [run_snoc] at h
+    rcases hstep _ _ h with ⟨hp, hq⟩ | ⟨hr, hq⟩
+    · obtain ⟨pre, x, post, hops, hreq, hall⟩ := ih hp
+      refine ⟨pre, x, post ++ [op], by rw [hops]; simp, hreq, ?_⟩
+      intro post1 hpre
+      rcases List.prefix_concat_iff.mp hpre with heq | hpre'
+      · subst heq
+        have e : pre ++ x :: (post ++ [op]) = ops ++ [op] := by rw [hops]; simp
+        rw [e, run_snoc]
+        apply hq
+        have := hall post List.prefix_rfl
+        rwa [← hops] at this
+      · exact hall post1 hpre'
+    · refine ⟨ops, op, [], rfl, hr, ?_⟩
+      intro post1 hpre
+      rw [List.prefix_nil.mp hpre, run_snoc]
+      exact hq
+
+@[simp] theorem benFinish_owner (s : State) (c n : Nat) : (benFinish s c n).owner = s.owner := by
+  cases hp : s.pendingBen with
+  | none => simp [benFinish, hp]
+  | some p => rw [benFinish_spec _ _ _ p hp]; split <;> rfl
+@[simp] theorem benFinish_pendingOwner (s : State) (c n : Nat) :
+    (benFinish s c n).pendingOwner = s.pendingOwner := by
+  cases hp : s.pendingBen with
+  | none => simp [benFinish, hp]
+  | some p => rw [benFinish_spec _ _ _ p hp]; split <;> rfl
+@[simp] theorem benFinish_worker (s : State) (c n : Nat) : (benFinish s c n).worker = s.worker := by
+  cases hp : s.pendingBen with
+  | none => simp [benFinish, hp]
+  | some p => rw [benFinish_spec _ _ _ p hp]; split <;> rfl
+@[simp] theorem benFinish_pendingWorker (s : State) (c n : Nat) :
+    (benFinish s c n).pendingWorker = s.pendingWorker := by
+  cases hp : s.pendingBen with
+  | none => simp [benFinish, hp]
+  | some p => rw [benFinish_spec _ _ _ p hp]; split <;> rfl
+@[simp] theorem benFinish_controls (s : State) (c n : Nat) :
+    (benFinish s c n).controls = s.controls := by
+  cases hp : s.pendingBen with
+  | none => simp [benFinish, hp]
+  | some p => rw [benFinish_spec _ _ _ p hp]; split <;> rfl
+
 end BA.MinerControl
